@@ -485,6 +485,15 @@ impl DtlsInner {
             match DtlsRecord::decode(&mut data) {
                 Ok(None) => break,
                 Ok(Some(record)) => {
+                    // Epoch 0 is unprotected: it never carries application data, and once
+                    // keys are negotiated an alert must arrive under them to be honoured.
+                    if record.epoch == 0
+                        && (record.content_type == ContentType::ApplicationData
+                            || (record.content_type == ContentType::Alert
+                                && ctx.session_keys.is_some()))
+                    {
+                        continue;
+                    }
                     let payload = match self.try_decrypt_record(&record, ctx, is_client) {
                         Ok(p) => p,
                         Err(e) => {
@@ -496,6 +505,7 @@ impl DtlsInner {
                     self.handle_decrypted_record(
                         record.content_type,
                         payload,
+                        record.epoch != 0,
                         ctx,
                         incoming_data_tx,
                         certificate,
@@ -592,6 +602,7 @@ impl DtlsInner {
         &self,
         content_type: ContentType,
         payload: Bytes,
+        authenticated: bool,
         ctx: &mut HandshakeContext,
         incoming_data_tx: &mpsc::UnboundedSender<Bytes>,
         certificate: &Certificate,
@@ -610,7 +621,7 @@ impl DtlsInner {
                 let _ = incoming_data_tx.send(payload);
             }
             ContentType::Handshake => {
-                self.process_handshake_payload(payload, ctx, certificate, is_client)
+                self.process_handshake_payload(payload, authenticated, ctx, certificate, is_client)
                     .await?;
             }
             ContentType::Alert => {
@@ -632,6 +643,7 @@ impl DtlsInner {
     async fn process_handshake_payload(
         &self,
         mut body: Bytes,
+        authenticated: bool,
         ctx: &mut HandshakeContext,
         certificate: &Certificate,
         is_client: bool,
@@ -694,6 +706,12 @@ impl DtlsInner {
                             // Ignore out-of-order for now
                             continue;
                         }
+                    }
+
+                    // Once keys are negotiated the next handshake message (Finished) must
+                    // arrive protected; a clear-text one is not from the peer holding the keys.
+                    if !authenticated && ctx.session_keys.is_some() {
+                        continue;
                     }
 
                     // Clear post_hvr once we've accepted the first post-HVR message
